@@ -272,7 +272,12 @@ def replay(prop, path):
     vh = vlib.build_vh()
     inp = os.path.join(vlib.subdir('replay'), 'in.ndjson')
     outp = os.path.join(vlib.subdir('replay'), 'out.ndjson')
-    if rp['family'] == 'fvss':
+    if rp['family'] == 'dkg-big':
+        proto, n, t, d, mem = rp['case']
+        open(inp, 'w').write(json.dumps({'id': 'replay', 'proto': proto, 'n': n, 't': t, 'dealer': d, 'members': mem, 'seed': 1}) + '\n')
+        vlib.run([vh, 'dkg-big', '--in', inp, '--out', outp], check=True)
+        vs = json.loads(open(outp).readline())['violations']
+    elif rp['family'] == 'fvss':
         open(inp, 'w').write(json.dumps(rp['case']) + '\n')
         vlib.run([vh, 'fvss-replay', '--in', inp, '--out', outp], check=True)
         r = json.loads(open(outp).readline())
